@@ -82,6 +82,69 @@ fn test_vec(n: usize, salt: i64) -> Vec<i64> {
     (0..n).map(|i| ((i as i64 * 7 + salt * 3) % 5) - 2 + if (i as i64 + salt) % 3 == 0 { 3 } else { 0 }).collect()
 }
 fn fv(v: &[i64]) -> Vec<f64> { v.iter().map(|x| *x as f64).collect() }
+
+// ---- per-branch hit counters for the (a, b) specialisations of gemv / gemv_T / symv ----
+thread_local! {
+    static BRANCH: std::cell::RefCell<std::collections::BTreeMap<String, usize>> = Default::default();
+}
+fn coef_class(c: f64) -> &'static str {
+    // the tests the code makes, in its order: == 0, == 1, == -1
+    if c == 0.0 { if c.is_sign_negative() { "negzero" } else { "zero" } } else if c == 1.0 { "one" } else if c == -1.0 { "minusone" } else { "general" }
+}
+fn note_branch(kernel: &str, a: f64, b: f64) {
+    let key = format!("branch_{}_a={}_b={}", kernel, coef_class(a), coef_class(b));
+    BRANCH.with(|m| *m.borrow_mut().entry(key).or_insert(0) += 1);
+}
+fn gemv_n(af: &CscMatrix<f64>, y: &mut [f64], x: &[f64], a: f64, b: f64) { note_branch("gemvN", a, b); vh::csc_gemv(af, y, x, a, b); }
+fn gemv_t(af: &CscMatrix<f64>, y: &mut [f64], x: &[f64], a: f64, b: f64) { note_branch("gemvT", a, b); vh::csc_gemv_t(af, y, x, a, b); }
+fn symv_u(af: &CscMatrix<f64>, y: &mut [f64], x: &[f64], a: f64, b: f64) { note_branch("symv", a, b); vh::csc_symv(af, y, x, a, b); }
+/// every (class of a) x (class of b) combination of the integer-valued stream
+const AB16: [(i64, i64); 16] = [
+    (0, 0), (0, 1), (0, -1), (0, 3), (1, 0), (1, 1), (1, -1), (1, 2),
+    (-1, 0), (-1, 1), (-1, -1), (-1, -2), (3, 0), (2, 1), (-2, -1), (3, 2),
+];
+
+// f64 <-> JSON as bit patterns (NaN / infinities / -0 survive a replay)
+fn fbits(x: f64) -> String { format!("{:016x}", x.to_bits()) }
+fn fbits_vec(v: &[f64]) -> Value { json!(v.iter().map(|x| fbits(*x)).collect::<Vec<_>>()) }
+fn unbits(v: &Value) -> f64 { f64::from_bits(u64::from_str_radix(v.as_str().unwrap(), 16).unwrap()) }
+fn unbits_vec(v: &Value) -> Vec<f64> { v.as_array().unwrap().iter().map(unbits).collect() }
+
+/// a matrix with arbitrary binary64 values
+#[derive(Clone, Debug)]
+pub struct RawF { pub m: usize, pub n: usize, pub colptr: Vec<usize>, pub rowval: Vec<usize>, pub nzval: Vec<f64> }
+impl RawF {
+    pub fn json(&self) -> Value { json!({"m": self.m, "n": self.n, "colptr": self.colptr, "rowval": self.rowval, "nzval": fbits_vec(&self.nzval)}) }
+    pub fn from_json(v: &Value) -> Self {
+        RawF { m: v["m"].as_u64().unwrap() as usize, n: v["n"].as_u64().unwrap() as usize, colptr: usize_vec(&v["colptr"]), rowval: usize_vec(&v["rowval"]), nzval: unbits_vec(&v["nzval"]) }
+    }
+    pub fn coq(&self) -> String { format!("(RF {} {} {} {} {})", cn(self.m), cn(self.n), cnlist(&self.colptr), cnlist(&self.rowval), cfllist(&self.nzval)) }
+    pub fn csc(&self) -> CscMatrix<f64> { CscMatrix { m: self.m, n: self.n, colptr: self.colptr.clone(), rowval: self.rowval.clone(), nzval: self.nzval.clone() } }
+    pub fn is_triu_square(&self) -> bool {
+        self.m == self.n && (0..self.n).all(|j| (self.colptr[j]..self.colptr[j + 1]).all(|p| self.rowval[p] <= j))
+    }
+}
+/// binary64-level products: the three kernels on (A, x, y, a, b), compared bit for bit
+pub fn fgemv_case(a: &RawF, x_n: &[f64], y_m: &[f64], x_m: &[f64], y_n: &[f64], ca: f64, cb: f64) -> String {
+    let af = a.csc();
+    let mut parts = vec![];
+    let r = guarded(|| { let mut yy = y_m.to_vec(); gemv_n(&af, &mut yy, x_n, ca, cb); yy });
+    parts.push(match r { Some(yy) => format!("c_gemv_F A {} {} {} {} {}", cfllist(x_n), cfllist(y_m), cfl(ca), cfl(cb), cfllist(&yy)), None => "1%N".into() });
+    let r = guarded(|| { let mut yy = y_n.to_vec(); gemv_t(&af, &mut yy, x_m, ca, cb); yy });
+    parts.push(match r { Some(yy) => format!("c_gemv_T_F A {} {} {} {} {}", cfllist(x_m), cfllist(y_n), cfl(ca), cfl(cb), cfllist(&yy)), None => "1%N".into() });
+    if a.is_triu_square() {
+        let r = guarded(|| { let mut yy = y_n.to_vec(); symv_u(&af, &mut yy, x_n, ca, cb); yy });
+        parts.push(match r { Some(yy) => format!("c_symv_F A {} {} {} {} {}", cfllist(x_n), cfllist(y_n), cfl(ca), cfl(cb), cfllist(&yy)), None => "1%N".into() });
+    }
+    format!("(let A := {} in maxl [{}])", a.coq(), parts.join("; "))
+}
+fn fgemv_json(a: &RawF, x_n: &[f64], y_m: &[f64], x_m: &[f64], y_n: &[f64], ca: f64, cb: f64) -> Value {
+    json!({"A": a.json(), "x_n": fbits_vec(x_n), "y_m": fbits_vec(y_m), "x_m": fbits_vec(x_m), "y_n": fbits_vec(y_n), "a": fbits(ca), "b": fbits(cb)})
+}
+fn dims_ok(a: &RawI) -> bool {
+    a.rowval.len() == a.nzval.len() && a.colptr.len() == a.n + 1 && a.colptr[0] == 0
+        && a.colptr[a.n] == a.rowval.len() && a.colptr.windows(2).all(|w| w[0] <= w[1])
+}
 fn iv_or_bad(v: &[f64]) -> String {
     match f2i_vec(v) { Some(w) => czlist(&w), None => "[424242]%Z".into() }
 }
@@ -188,16 +251,16 @@ pub fn bundle(a: &RawI, salt: usize) -> String {
     let r = guarded(|| { let mut b = af.clone(); b.lrscale(&fv(&l), &fv(&rr)); b });
     parts.push(match r.and_then(|b| RawI::of_f(&b)) { Some(b) => format!("c_lrscale A {} {} {}", czlist(&l), czlist(&rr), b.coq()), None => "1%N".into() });
     // products
-    let abs = [(1i64, 0i64), (-1, 1), (2, -1), (0, 3), (1, 1), (3, 2), (-1, -1), (1, -1)];
+    let abs = AB16;
     for k in 0..2 {
-        let (ca, cb) = abs[(salt + 3 * k) % abs.len()];
+        let (ca, cb) = abs[(salt + 7 * k) % abs.len()];
         let x = test_vec(n, s + 3 + k as i64);
         let y = test_vec(m, s + 4 + k as i64);
-        let r = guarded(|| { let mut yy = fv(&y); vh::csc_gemv(&af, &mut yy, &fv(&x), ca as f64, cb as f64); yy });
+        let r = guarded(|| { let mut yy = fv(&y); gemv_n(&af, &mut yy, &fv(&x), ca as f64, cb as f64); yy });
         parts.push(match r { Some(yy) => format!("c_gemv A {} {} {} {} {}", czlist(&x), czlist(&y), cz(ca), cz(cb), iv_or_bad(&yy)), None => "1%N".into() });
         let xt = test_vec(m, s + 5 + k as i64);
         let yt = test_vec(n, s + 6 + k as i64);
-        let r = guarded(|| { let mut yy = fv(&yt); vh::csc_gemv_t(&af, &mut yy, &fv(&xt), ca as f64, cb as f64); yy });
+        let r = guarded(|| { let mut yy = fv(&yt); gemv_t(&af, &mut yy, &fv(&xt), ca as f64, cb as f64); yy });
         parts.push(match r { Some(yy) => format!("c_gemv_T A {} {} {} {} {}", czlist(&xt), czlist(&yt), cz(ca), cz(cb), iv_or_bad(&yy)), None => "1%N".into() });
     }
     // sums and norms
@@ -224,10 +287,35 @@ pub fn bundle(a: &RawI, salt: usize) -> String {
             let (ca, cb) = abs[(salt + 1) % abs.len()];
             let x = test_vec(n, s + 7);
             let y = test_vec(n, s + 8);
-            let r = guarded(|| { let mut yy = fv(&y); vh::csc_symv(&tf, &mut yy, &fv(&x), ca as f64, cb as f64); yy });
+            let r = guarded(|| { let mut yy = fv(&y); symv_u(&tf, &mut yy, &fv(&x), ca as f64, cb as f64); yy });
             parts.push(match r { Some(yy) => format!("c_symv {} {} {} {} {} {}", tcoq, czlist(&x), czlist(&y), cz(ca), cz(cb), iv_or_bad(&yy)), None => "1%N".into() });
             let r = guarded(|| tf.quad_form(&fv(&y), &fv(&x)));
             parts.push(match r.and_then(f2i) { Some(q) => format!("c_quad_form {} {} {} (Out {})", tcoq, czlist(&y), czlist(&x), cz(q)), None => "1%N".into() });
+            // to_triu is idempotent
+            let t2 = guarded(|| tu.to_triu());
+            parts.push(match t2 { Some(t2) => format!("c_triu_idem {} {}", tcoq, RawI::of_i(&t2).coq()), None => "1%N".into() });
+            // the full symmetric matrix built from the upper triangle: its to_triu gives the
+            // triangle back, and gemv on it is symv on the triangle
+            {
+                let ud = RawI::of_i(&tu).dense();
+                let sd: Vec<Vec<i64>> = (0..n).map(|i| (0..n).map(|j| if i <= j { ud[i][j] } else { ud[j][i] }).collect()).collect();
+                if n > 0 {
+                    let sm = guarded(|| CscMatrix::<i64>::from(sd.iter().map(|r| r.iter())));
+                    if let Some(sm) = sm {
+                        let scoq = RawI::of_i(&sm).coq();
+                        let ts = guarded(|| sm.to_triu());
+                        parts.push(format!("c_sym_roundtrip {} {} {}", tcoq, scoq, out_raw(ts.map(|t| Some(RawI::of_i(&t))))));
+                        // Rust symv on the triangle, checked against the model's gemv on the full matrix
+                        let r = guarded(|| { let mut yy = fv(&y); symv_u(&tf, &mut yy, &fv(&x), ca as f64, cb as f64); yy });
+                        parts.push(match r { Some(yy) => format!("c_gemv {} {} {} {} {} {}", scoq, czlist(&x), czlist(&y), cz(ca), cz(cb), iv_or_bad(&yy)), None => "1%N".into() });
+                    } else { parts.push("1%N".into()); }
+                }
+            }
+            // the missing-diagonal count / fill pipeline and the diagonal counters
+            let r = guarded(|| vh::c16::add_missing_diag(&tf).0);
+            parts.push(format!("c_add_missing_diag {} {}", tcoq, match r { None => "Panicked".to_string(), Some(k) => out_raw(Some(RawI::of_f(&k))) }));
+            let r = guarded(|| (vh::c16::count_diagonal_entries(&tf, true), vh::c16::count_diagonal_entries(&tf, false)));
+            parts.push(match r { Some((u, l)) => format!("c_count_diag {} {} {}", tcoq, cn(u), cn(l)), None => "1%N".into() });
             let r = guarded(|| { let mut v = vec![9.0; n]; tf.col_norms_sym(&mut v); v });
             parts.push(match r { Some(v) => format!("c_col_norms_sym {} {}", tcoq, iv_or_bad(&v)), None => "1%N".into() });
             let r = guarded(|| { let mut v = fv(&s_n); tf.col_norms_sym_no_reset(&mut v); v });
@@ -326,6 +414,20 @@ pub fn raw_case(a: &RawI) -> String {
         Some((r, b)) => parts.push(format!("c_canonicalize A {} {}", cn(fmt_code(r)), RawI::of_i(&b).coq())),
         None => parts.push("1%N".into()),
     }
+    if dims_ok(a) {
+        match guarded(|| ai.is_triu()) {
+            Some(b) => parts.push(format!("c_is_triu A {}", b)),
+            None => parts.push("1%N".into()),
+        }
+        for idx in 0..=a.rowval.len() {
+            let r = guarded(|| ai.index_to_coord(idx));
+            let o = match r { None => "Panicked".to_string(), Some((i, j)) => format!("(Out ({}, {})%N)", i, j) };
+            parts.push(format!("c_raw_index_to_coord A {} {}", cn(idx), o));
+        }
+        let af = a.csc_f();
+        let r = guarded(|| (vh::c16::count_diagonal_entries(&af, true), vh::c16::count_diagonal_entries(&af, false)));
+        parts.push(match r { Some((u, l)) => format!("c_count_diag A {} {}", cn(u), cn(l)), None => "1%N".into() });
+    }
     format!("(let A := {} in maxl [{}])", a.coq(), parts.join("; "))
 }
 
@@ -368,9 +470,9 @@ pub fn generate(sink: &mut CaseSink, seed: u64, thorough: bool) -> Stats {
         (0, 0, &v3, 1), (0, 2, &v3, 1), (2, 0, &v3, 1), (1, 1, &v4, 1), (1, 2, &v4, 1), (2, 1, &v4, 1), (1, 3, &v4, 1), (3, 1, &v4, 1),
         (2, 2, &v4, 1), (2, 3, &v3, 1), (3, 2, &v3, 1),
     ];
-    // 3x3 over {absent,1,-1}: complete (19 683 matrices) in thorough; in quick every 4th code
-    // (4 921 matrices; the stride is coprime to 3 so that every cell takes every value)
-    shapes.push((3, 3, &v3, if thorough { 1 } else { 4 }));
+    // 3x3 over {absent,1,-1}: complete (19 683 matrices) in thorough; in quick every 5th code
+    // (3 937 matrices; the stride is coprime to 3 so that every cell takes every value)
+    shapes.push((3, 3, &v3, if thorough { 1 } else { 5 }));
     if thorough {
         shapes.push((2, 3, &v4, 1));
         shapes.push((3, 2, &v4, 1));
@@ -559,6 +661,97 @@ pub fn generate(sink: &mut CaseSink, seed: u64, thorough: bool) -> Stats {
             bump("raw_special");
         }
     }
+    // 5b. structural queries on unsorted / duplicated columns: every 2x2 and 3x3 encoding whose
+    //     columns are arbitrary row sequences of length <= 2 (49 and 2 197 encodings; quick
+    //     takes every 3rd 3x3 code: 13 = 1 mod 3, so every column still takes every sequence),
+    //     then hand-picked shapes: nnz = 0, empty leading / trailing columns, a sub-diagonal
+    //     entry stored first in its column
+    {
+        for n in [2usize, 3] {
+            let mut seqs: Vec<Vec<usize>> = vec![vec![]];
+            for i in 0..n { seqs.push(vec![i]); }
+            for i in 0..n { for k in 0..n { seqs.push(vec![i, k]); } }
+            let ns = seqs.len() as u64;
+            let total = ns.pow(n as u32);
+            let stride = if n == 3 && !thorough { 3 } else { 1 };
+            let mut code = if stride > 1 { seed % stride } else { 0 };
+            while code < total {
+                let mut c = code;
+                let mut colptr = vec![0];
+                let (mut rv, mut nz) = (vec![], vec![]);
+                for _ in 0..n {
+                    for &r in &seqs[(c % ns) as usize] { rv.push(r); nz.push(1 + (rv.len() as i64 % 3)); }
+                    c /= ns;
+                    colptr.push(rv.len());
+                }
+                let a = RawI { m: n, n, colptr, rowval: rv, nzval: nz };
+                sink.case("raw", json!({"A": a.json()}), raw_case(&a), &["valid"]);
+                bump(&format!("raw_unsorted_exhaustive_{}x{}", n, n));
+                code += stride;
+            }
+        }
+        for a in [
+            RawI { m: 3, n: 3, colptr: vec![0, 0, 0, 0], rowval: vec![], nzval: vec![] },
+            RawI { m: 3, n: 4, colptr: vec![0, 0, 0, 2, 2], rowval: vec![2, 0], nzval: vec![1, 2] },
+            RawI { m: 4, n: 4, colptr: vec![0, 0, 0, 0, 3], rowval: vec![3, 0, 3], nzval: vec![1, 2, 3] },
+            RawI { m: 4, n: 4, colptr: vec![0, 3, 3, 3, 3], rowval: vec![2, 1, 0], nzval: vec![1, 2, 3] },
+            RawI { m: 2, n: 2, colptr: vec![0, 2, 3], rowval: vec![1, 0, 1], nzval: vec![2, 4, 3] },
+            RawI { m: 0, n: 3, colptr: vec![0, 0, 0, 0], rowval: vec![], nzval: vec![] },
+            RawI { m: 5, n: 1, colptr: vec![0, 4], rowval: vec![4, 0, 4, 2], nzval: vec![1, 1, 1, 1] },
+        ] {
+            sink.case("raw", json!({"A": a.json()}), raw_case(&a), &["valid"]);
+            bump("raw_struct_special");
+        }
+    }
+    // 5c. binary64-level products: every (a, b) class pair incl. -0, on empty matrices, empty
+    //     columns, a single column, upper-triangular squares (symv), stored -0 entries; y is
+    //     finite garbage (huge values, -0) or non-finite garbage (inf, NaN); for a = 0 the
+    //     vector x and the matrix may hold non-finite values too (they are never read)
+    {
+        let coefs: [f64; 8] = [0.0, -0.0, 1.0, -1.0, 2.0, -0.5, 3.0, 0.25];
+        let vals: [f64; 9] = [0.5, -1.0, 1.5, 2.0, -0.0, 0.0, 3.25, -2.5, 1e300];
+        let fin: [f64; 8] = [1e300, -7.25, -0.0, 0.0, 3.0, -1e-300, 123456.789, -2.0];
+        let nonfin: [f64; 5] = [f64::INFINITY, f64::NEG_INFINITY, f64::NAN, -0.0, 5.0];
+        let shapes: [(usize, usize, usize, bool); 12] = [
+            (0, 0, 0, false), (0, 3, 0, false), (3, 0, 0, false), (1, 1, 100, true), (3, 1, 70, false), (1, 4, 60, false),
+            (3, 3, 0, true), (3, 3, 60, true), (4, 4, 35, true), (4, 3, 50, false), (2, 5, 40, false), (5, 5, 50, false),
+        ];
+        let reps = if thorough { 6 } else { 1 };
+        for _ in 0..reps {
+            for &(m, n, dens, triu) in shapes.iter() {
+                for (ia, &ca) in coefs.iter().enumerate() {
+                    for (ib, &cb) in coefs.iter().enumerate() {
+                        // all 5 x 5 class pairs; the extra general values only against each other
+                        if (ia >= 5 || ib >= 5) && (ia + ib) % 3 != 0 { continue; }
+                        for kind in 0..2 {
+                            let mut colptr = vec![0];
+                            let (mut rv, mut nz) = (vec![], vec![]);
+                            for j in 0..n {
+                                for i in 0..m {
+                                    if (!triu || i <= j) && rng.chance(dens, 100) { rv.push(i); nz.push(*rng.pick(&vals)); }
+                                }
+                                colptr.push(rv.len());
+                            }
+                            let garbage: &[f64] = if kind == 0 { &fin } else { &nonfin };
+                            let y_m: Vec<f64> = (0..m).map(|_| *rng.pick(garbage)).collect();
+                            let y_n: Vec<f64> = (0..n).map(|_| *rng.pick(garbage)).collect();
+                            let mut x_n: Vec<f64> = (0..n).map(|_| *rng.pick(&vals)).collect();
+                            let mut x_m: Vec<f64> = (0..m).map(|_| *rng.pick(&vals)).collect();
+                            if ca == 0.0 && kind == 1 {
+                                // never read when a = 0
+                                for v in x_n.iter_mut().chain(x_m.iter_mut()) { if rng.chance(1, 2) { *v = *rng.pick(&nonfin); } }
+                                for v in nz.iter_mut() { if rng.chance(1, 3) { *v = f64::NAN; } }
+                            }
+                            let a = RawF { m, n, colptr, rowval: rv, nzval: nz };
+                            let coq = fgemv_case(&a, &x_n, &y_m, &x_m, &y_n, ca, cb);
+                            sink.case("fgemv", fgemv_json(&a, &x_n, &y_m, &x_m, &y_n, ca, cb), coq, &[if kind == 0 { "finite-garbage" } else { "nonfinite-garbage" }]);
+                            bump("fgemv");
+                        }
+                    }
+                }
+            }
+        }
+    }
     // 6. identity / zeros
     for n in 0..6 {
         let r = guarded(|| CscMatrix::<i64>::identity(n));
@@ -567,6 +760,7 @@ pub fn generate(sink: &mut CaseSink, seed: u64, thorough: bool) -> Stats {
         sink.case("zeros", json!({"m": n, "n": 5 - n}), match r { Some(a) => format!("(c_zeros {} {} {})", cn(n), cn(5 - n), RawI::of_i(&a).coq()), None => "1%N".into() }, &["exhaustive"]);
         bump("identity_zeros");
     }
+    BRANCH.with(|b| for (k, v) in b.borrow().iter() { st.by_stream.insert(k.clone(), *v); });
     st
 }
 
@@ -579,6 +773,7 @@ pub fn replay(sink: &mut CaseSink, case: &Value) {
             let bl: Vec<RawI> = inp["blocks"].as_array().unwrap().iter().map(RawI::from_json).collect();
             concat_case(&bl, inp["salt"].as_u64().unwrap() as usize)
         }
+        "fgemv" => fgemv_case(&RawF::from_json(&inp["A"]), &unbits_vec(&inp["x_n"]), &unbits_vec(&inp["y_m"]), &unbits_vec(&inp["x_m"]), &unbits_vec(&inp["y_n"]), unbits(&inp["a"]), unbits(&inp["b"])),
         "hvgrid" => {
             let rows: Vec<Vec<RawI>> = inp["rows"].as_array().unwrap().iter().map(|r| r.as_array().unwrap().iter().map(RawI::from_json).collect()).collect();
             grid_case(&rows)
